@@ -1,13 +1,28 @@
 /-
-  Certificate obligations, part 7 of 8 of the `patched` client system (kernel evaluation; one module per
-  part so that lake checks them in parallel). Assembled in `Lemmas/CliCert.lean`.
+  Certificate obligations, parts 56..63 of 64 of the `patched` client system (kernel evaluation; 8 modules
+  so that lake checks them in parallel; small parts keep the kernel's memory small).
+  Assembled in `Lemmas/CliCert.lean`.
 -/
 import KmipModel.Model.CliConn
 import KmipModel.Gen.CertCliConn
 namespace Kmip.CliCert
 open Kmip.CliLts Kmip.CliConn Kmip.Gen.CertCliConn
 
-theorem paClosed7 : partClosed (sys patched) codec certPatched paP7 = true := by decide +kernel
-theorem paSafe7 : partSafe codec (badFull patched) paP7 = true := by decide +kernel
+theorem paClosed56 : partClosed (sys patched) codec certPatched paP56 = true := by decide +kernel
+theorem paSafe56 : partSafe codec (badFull patched) paP56 = true := by decide +kernel
+theorem paClosed57 : partClosed (sys patched) codec certPatched paP57 = true := by decide +kernel
+theorem paSafe57 : partSafe codec (badFull patched) paP57 = true := by decide +kernel
+theorem paClosed58 : partClosed (sys patched) codec certPatched paP58 = true := by decide +kernel
+theorem paSafe58 : partSafe codec (badFull patched) paP58 = true := by decide +kernel
+theorem paClosed59 : partClosed (sys patched) codec certPatched paP59 = true := by decide +kernel
+theorem paSafe59 : partSafe codec (badFull patched) paP59 = true := by decide +kernel
+theorem paClosed60 : partClosed (sys patched) codec certPatched paP60 = true := by decide +kernel
+theorem paSafe60 : partSafe codec (badFull patched) paP60 = true := by decide +kernel
+theorem paClosed61 : partClosed (sys patched) codec certPatched paP61 = true := by decide +kernel
+theorem paSafe61 : partSafe codec (badFull patched) paP61 = true := by decide +kernel
+theorem paClosed62 : partClosed (sys patched) codec certPatched paP62 = true := by decide +kernel
+theorem paSafe62 : partSafe codec (badFull patched) paP62 = true := by decide +kernel
+theorem paClosed63 : partClosed (sys patched) codec certPatched paP63 = true := by decide +kernel
+theorem paSafe63 : partSafe codec (badFull patched) paP63 = true := by decide +kernel
 
 end Kmip.CliCert
